@@ -322,6 +322,33 @@ def translate_from_str(S, toks):
     return "\n".join([f"def KSecretKey.from_str (M : Nat) ({raw}_ : Bytes) : KeyOutcome := Rust.Keys.finish (do"] + lines)
 
 
+def translate_as_ref(S, toks):
+    """`impl AsRef<[u8]> for KSecretKey { fn as_ref(&self) -> &[u8] { &self.prefixed_key[LO..HI] } }`"""
+    i = S.find_seq(toks, [("id", "impl"), ("id", "AsRef"), ("p", "<"), ("p", "["), ("id", "u8"), ("p", "]"), ("p", ">"), ("id", "for"), ("id", "KSecretKey"), ("p", "{")])
+    if i < 0: raise KErr("impl AsRef")
+    blk = toks[i + 10:S.matching(toks, i + 9)]
+    sig = S.fn_sig(blk, "as_ref")
+    if sig is None: raise KErr("as_ref")
+    if [str(t.v) for t in sig[0]] != ["&", "self"] or [str(t.v) for t in sig[1]] != ["&", "[", "u8", "]"]: raise KErr("signature")
+    b = sig[2]
+    if not (len(b) >= 7 and is_p(b[0], "&") and is_id(b[1], "self") and is_p(b[2], ".") and is_id(b[3], "prefixed_key") and is_p(b[4], "[")
+            and S.matching(b, 4) == len(b) - 1): raise KErr("body")
+    rng = b[5:-1]
+    # `self.len` is the only field allowed inside the range
+    flat, j = [], 0
+    while j < len(rng):
+        if is_id(rng[j], "self") and j + 2 < len(rng) and is_p(rng[j + 1], ".") and is_id(rng[j + 2], "len"):
+            t = S.Tok("id", "self_len", rng[j].pos); flat.append(t); j += 3
+        else:
+            flat.append(rng[j]); j += 1
+    d = [j for j, x in enumerate(flat) if is_p(x, "..")]
+    if len(d) != 1: raise KErr("range")
+    env = {"self_len": "self.len"}
+    lo = nat_expr(S, flat[:d[0]], env) if d[0] > 0 else "(some 0)"
+    hi = nat_expr(S, flat[d[0] + 1:], env) if d[0] + 1 < len(flat) else "(some self.buf.length)"
+    return f"def KSecretKey.as_ref (self : SecretKey) : Option Bytes :=\n  Rust.Keys.slice self.buf {lo} {hi}"
+
+
 def lean_type(ty, kinds):
     return "(Bytes → Bytes) → " + LEAN_SELF[ty] + " → " + "".join(f"({LEAN_PARAM[k]}) → " for k in kinds) + "Bytes"
 
@@ -395,6 +422,18 @@ def generate_keys(S, repo):
         defs.append("def KSecretKey.from_str : Nat → Bytes → KeyOutcome := fun _ _ => .panic \"untranslated\"   -- stub\n")
         wraps.append("def signing_key.KSecretKey_from_str? : Option (Nat → Bytes → KeyOutcome) := none   -- outside the translator's subset on this tree")
         items["signing_key.KSecretKey.from_str"] = "unreadable"
+    try:
+        atext = translate_as_ref(S, toks) if toks is not None else None
+    except Exception:                                                   # noqa
+        atext = None
+    if atext:
+        defs.append(atext + "\n")
+        wraps.append("def signing_key.KSecretKey_as_ref? : Option (SecretKey → Option Bytes) := some keys.KSecretKey.as_ref")
+        items["signing_key.KSecretKey.as_ref"] = "read"
+    else:
+        defs.append("def KSecretKey.as_ref : SecretKey → Option Bytes := fun _ => none   -- stub\n")
+        wraps.append("def signing_key.KSecretKey_as_ref? : Option (SecretKey → Option Bytes) := none   -- outside the translator's subset on this tree")
+        items["signing_key.KSecretKey.as_ref"] = "unreadable"
     header = [
         "/-",
         "  GENERATED by /verif/srcgen/srcgen.py (keychain.py) from /repo/src/signing_key.rs — do not edit; regenerated on every",
